@@ -21,8 +21,12 @@ where
     node: Node<'tree, D>,
     env: &mut Cow<MetaVarEnv<'tree, D>>,
   ) -> Option<Node<'tree, D>> {
-    let node = self.pattern1.match_node_with_env(node, env)?;
-    self.pattern2.match_node_with_env(node, env)
+    // do not leave pattern1's bindings behind when pattern2 fails
+    let mut new_env = Cow::Borrowed(env.as_ref());
+    let node = self.pattern1.match_node_with_env(node, &mut new_env)?;
+    let ret = self.pattern2.match_node_with_env(node, &mut new_env)?;
+    *env = Cow::Owned(new_env.into_owned());
+    Some(ret)
   }
 
   fn potential_kinds(&self) -> Option<BitSet> {
